@@ -388,6 +388,9 @@ impl Updater<'_> {
       rune_updater.update()?;
     }
 
+    #[cfg(ordinals_ord_verif)]
+    crate::verif::sched::crash_point("block");
+
     height_to_block_header.insert(&self.height, &block.header.store())?;
 
     self.height += 1;
@@ -872,10 +875,14 @@ impl Updater<'_> {
     self.sat_ranges_since_flush = 0;
     Index::increment_statistic(&wtx, Statistic::Commits, 1)?;
     wtx.commit()?;
+    #[cfg(ordinals_ord_verif)]
+    crate::verif::sched::crash_point("commit");
 
     // Commit twice since due to a bug redb will only reuse pages freed in the
     // transaction before last.
     self.index.begin_write()?.commit()?;
+    #[cfg(ordinals_ord_verif)]
+    crate::verif::sched::crash_point("commit");
 
     Reorg::update_savepoints(self.index, self.height)?;
 
